@@ -220,3 +220,20 @@ fn c16_pre1970_minutely() {
     let rotates = inner.should_rollover(instant(now_ts)).is_some();
     assert!(rotates == (now_ts >= next));
 }
+
+/// Candidate finding (not part of the default list): on the last representable day a daily appender cannot
+/// compute its next deadline (`*current_date + Duration::days(1)` panics in `time`).
+#[kani::proof]
+#[kani::unwind(2)]
+#[kani::stub(std::rt::thread_cleanup, noop)]
+#[kani::stub(core::fmt::write, fmt_write_stub)]
+fn c16_last_day_daily() {
+    let ts: i64 = kani::any();
+    kani::assume(ts > MAX_TS - 86400 && ts <= MAX_TS);
+    let now = instant(ts);
+    // what RollingFileAppender::write does once the deadline 9999-12-31T00:00:00Z has been reached
+    let inner = v::VInner::new(Rotation::DAILY, (MAX_TS + 1 - 86400) as usize);
+    if let Some(cur) = inner.should_rollover(now) {
+        let _ = inner.advance_date(now, cur);
+    }
+}
